@@ -11,8 +11,24 @@ import (
 	"encoding/json"
 	"fmt"
 	"os"
+	"path/filepath"
 	"sort"
+	"strings"
 )
+
+// pinnedFailed makes the test binary exit non-zero (checked in TestMain).
+var pinnedFailed bool
+
+func writeFailNote(property, id, detail string) string {
+	dir := os.Getenv("VERIF_FAIL_DIR")
+	if dir == "" {
+		dir = os.TempDir()
+	}
+	p := filepath.Join(dir, fmt.Sprintf("%s-pinned-%s.txt", property, id))
+	_ = os.WriteFile(p, []byte(id+": "+detail+"\n"), 0o644)
+	fmt.Printf("VERIF-FAILCASE %s\n", p)
+	return p
+}
 
 type knownFinding struct {
 	ID         string `json:"id"`
@@ -69,7 +85,13 @@ func kfAccept(id string) bool {
 // kfRepro maps finding id -> pinned reproducer; returns true while gonnx still deviates.
 var kfRepro = map[string]func() (bool, string){}
 
-// reportKnownFindings prints the status of every open finding of a property.
+// pinnedRegressions: reproducers of defects that were repaired in /repo (see "fixed" in
+// known_findings.json). They form the replay tier: plain cases that bypass generation and must
+// hold; a reproducer that deviates again is a violation, whatever the generated search finds.
+var pinnedRegressions = map[string]func() (bool, string){}
+
+// reportKnownFindings prints the status of every open finding of a property and returns the
+// repaired defects of that property whose pinned reproducer deviates again.
 func reportKnownFindings(property string) {
 	var ids []string
 	for id, k := range kfAll {
@@ -78,6 +100,39 @@ func reportKnownFindings(property string) {
 		}
 	}
 	sort.Strings(ids)
+	// repaired defects: every reproducer registered for this property that is not an open finding
+	var pinned []string
+	for id := range kfRepro {
+		if strings.HasPrefix(id, "KF-"+property+"-") && !kfOpen(id) {
+			pinned = append(pinned, id)
+		}
+	}
+	for id := range pinnedRegressions {
+		if strings.HasPrefix(id, property+"-") {
+			pinned = append(pinned, id)
+		}
+	}
+	sort.Strings(pinned)
+	for _, id := range pinned {
+		f := kfRepro[id]
+		if f == nil {
+			f = pinnedRegressions[id]
+		}
+		dev, detail := func() (d bool, s string) {
+			defer func() {
+				if r := recover(); r != nil {
+					d, s = true, fmt.Sprintf("reproducer panicked: %v", r)
+				}
+			}()
+			return f()
+		}()
+		ev.Class("pinned", id)
+		if dev {
+			p := writeFailNote(property, id, detail)
+			fmt.Printf("VERIF-VIOLATION pinned regression case %s of a repaired defect deviates again: %s (%s)\n", id, detail, p)
+			pinnedFailed = true
+		}
+	}
 	for _, id := range ids {
 		f, ok := kfRepro[id]
 		if !ok {
